@@ -87,7 +87,7 @@ MUTANTS = [
   "                    Value::Integer(x) if x == 0 => {\n                      Err(take_cf_content(E::error::<V>(\n                          None,\n                          ErrorKind::Unexpected {\n                              msg: format!(\n                                  \"a non-zero integer value was expected, but found a zero\"\n                              ),", ["C05"]),
 ]
 
-PROPS = ["C01","C02","C03","C04","C05","C06","C07","C08","C09","C10","C11","C12","C13","C14","C15","C17","C18","C19"]
+PROPS = ["C01","C02","C03","C04","C05","C06","C07","C08","C09","C10","C11","C12","C13","C14","C15","C17","C18","C19"]  # C16 / C20 have their own build paths: see seeded_eval.py
 
 def sh(cmd, **kw):
     return subprocess.run(cmd, shell=True, capture_output=True, text=True, **kw)
@@ -122,6 +122,9 @@ def main():
     if bad:
         print("BASELINE NOT SILENT:", bad)
     results = {"baseline": base, "mutants": {}}
+    if want and os.path.exists("/verif/tools/mutation_matrix.json"):
+        old = json.load(open("/verif/tools/mutation_matrix.json"))
+        results["mutants"] = old.get("mutants", {})
     for name, f, old, new, expect in MUTANTS:
         if want and name not in want: continue
         if old == new: continue
